@@ -47,6 +47,27 @@ Theorem C16_columns_history_independent : forall h labelled p,
 Proof. exact layers_history_independent. Qed.
 Print Assumptions C16_columns_history_independent.
 
+(* gauge discipline of the whole noise-free trajectory, in strong mode with or without layer sampling and in weak mode: every
+   two-qubit gate and every READ — the observables at the start, at each labelled barrier and at the end, measure_shots in weak
+   mode, all of which sweep from site 0 — finds the orthogonality centre at site 0 (barriers and measurements do not matter);
+   the word ends for every circuit, and without its reads it is the gauge word of the gates that `run` executes *)
+Theorem C16_reads_in_canonical_form : forall m c w, traj_word m c = Some w -> forallb (fun b => b) (gauge_run true w) = true.
+Proof. exact trajectory_gauge. Qed.
+Print Assumptions C16_reads_in_canonical_form.
+Theorem C16_gauge_word_total : forall m c, traj_word m c <> None.
+Proof. exact traj_word_terminates. Qed.
+Print Assumptions C16_gauge_word_total.
+Theorem C16_gauge_word_refines_loop : forall sampling fuel rem ex ev, run sampling fuel rem = Some (ex, ev) ->
+  exists w lost, run_g sampling fuel rem = Some (w, lost) /\ filter no_read w = gauge_word ex.
+Proof. exact run_g_refines_run. Qed.
+Print Assumptions C16_gauge_word_refines_loop.
+
+Example C16_gauge_example :
+  traj_word Weak [mk 0 G1 [0]; mk 1 G2 [1;2]; mk 2 Bar [0;1;2]] = Some [GOne; GTwo; GRestore; GRead]
+  /\ traj_word StrongPlain [mk 1 G2 [0;1]; mk 0 G1 [0]] = Some [GTwo; GRestore; GOne; GRestore; GRead]
+  /\ traj_word StrongSampling [mk 2 SBar [0;1]; mk 3 G1 [0]] = Some [GRead; GRead; GOne; GRestore; GRead].
+Proof. vm_compute. repeat split; reflexivity. Qed.
+
 Example C16_example :
   trajectory true [mk 0 G1 [0]; mk 1 G2 [0;1]; mk 2 SBar [0;1;2]; mk 3 G2 [2;1]; mk 4 Meas [0]; mk 5 G1 [2]; mk 6 G1 [0]]
   = Some [ESample; EGate 0; EGate 1; ESample; EGate 3; EGate 6; EGate 5; ESample]
